@@ -57,6 +57,15 @@ def close(x, q: Fraction, scale=1) -> bool:
     return abs(Fraction(x) - q) <= TOL * max(1, abs(q), scale)
 
 
+def near(a, b, scale=1) -> bool:
+    """two implementation floats agree within tolerance (non-finite: identical kind)"""
+    if not isinstance(a, float) or not isinstance(b, float):
+        return a == b
+    if math.isnan(a) or math.isnan(b) or math.isinf(a) or math.isinf(b):
+        return repr(a) == repr(b)
+    return close(b, Fraction(a), scale)
+
+
 def gen_case(rng):
     ng, nm, ns = rng.randint(1, 4), rng.randint(1, 4), rng.randint(1, 9)
     gs = rng.sample(c18.NASTY + c18.NASTY_CSV, ng)
@@ -197,7 +206,7 @@ def check_case(case):
                 sa, sb = a[1], b[1]
                 big = max([abs(v) for v in sa["values"]] + [1])
                 if sorted(sa["values"]) != sorted(sb["values"]) or sa["min"] != sb["min"] or sa["max"] != sb["max"] \
-                        or not close(sb["avg"], Fraction(sa["avg"]), big) or not close(sb["std"], Fraction(sa["std"]), big):
+                        or not near(sa["avg"], sb["avg"], big) or not near(sa["std"], sb["std"], big):
                     vio.append(f"row permutation changes get_summary({g!r},{m!r}): {sa} vs {sb}")
     # across groups
     ma = out[2]
@@ -229,7 +238,7 @@ def check_case(case):
         else:
             for mm, s in ia[1].items():
                 t = a2[1].get(mm)
-                if t is None or not all(close(t[k], Fraction(s[k])) for k in ("avg", "std", "min", "max")):
+                if t is None or not all(near(s[k], t[k], max([abs(v) for v in s["values"] if isinstance(v, float) and math.isfinite(v)] + [1])) for k in ("avg", "std", "min", "max")):
                     vio.append(f"row permutation changes across_groups[{mm!r}]")
     # per-subject lookups
     for s, mo in zip(case["queries"], out[3]):
@@ -304,7 +313,20 @@ def replay(path):
     for r in case["cells"]:
         print("   ", r)
     print("row permutation:", case["perm"])
-    print("model (engine op 2001):", json.dumps(triple[2])[:2000])
+    out = triple[2]
+    ld = dec_stat(out[0])
+    print("model load:", ld[:4] if ld[0] == "ok" else ld)
+    if ld[0] == "ok":
+        def q(x):
+            return float(Fraction(x[0], x[1]))
+        for gi, g in enumerate(ld[2]):
+            for mi, m in enumerate(ld[3]):
+                r = out[1][gi][mi]
+                print(f"   column ({g!r},{m!r}) = {[None if v is None else float(v) for v in ld[4][g][m]]}")
+                print("      summary:", "undefined (no finite value)" if r[0] == 1 else
+                      {"values": [q(v) for v in r[1][0]], "avg": q(r[1][1]), "variance": q(r[1][2]), "min": q(r[1][3]), "max": q(r[1][4])})
+        print("   across groups:", "undefined (ValueError)" if out[2][0] == 1 else
+              {dec_name(m): {"values": [q(v) for v in vs[0]], "avg": q(vs[1]), "variance": q(vs[2]), "min": q(vs[3]), "max": q(vs[4])} for m, vs in out[2][1]})
     for w in vio:
         print("PROPERTY FAILS ON THE IMPLEMENTATION:", w)
     for t in dis:
